@@ -178,6 +178,12 @@ class ValueAxis(Saveable):
         # nearest smaller neighbor index
         nsni = int(numpy.floor((val-self.start)/self.step))
 
+        # the floor of the quotient can fall short by one due to rounding;
+        # a value of the axis itself has to be located at its own index
+        if (nsni >= -1) and (nsni+1 < self.length):
+            if val >= self.data[nsni+1]:
+                nsni += 1
+
         # if n0 is within bounds calculate distance
         # from the lower neighbor
         if (nsni >= 0) and (nsni < self.length):
